@@ -14,12 +14,14 @@ static uint64_t next(void) {
 	if (stream_pos < stream_n) return stream[stream_pos++];
 	return 0;
 }
-uint64_t nondet_ulong(void) { return next(); }
-uint32_t nondet_uint(void) { return (uint32_t)next(); }
-uint8_t nondet_uchar(void) { return (uint8_t)next(); }
-uint64_t vnd_ulong(void) { return next(); }
-uint32_t vnd_uint(void) { return (uint32_t)next(); }
-uint8_t vnd_uchar(void) { return (uint8_t)next(); }
+static int nd_trace = -1;
+static uint64_t nxt(const char* k) { uint64_t v = next(); if (nd_trace < 0) nd_trace = getenv("VERIF_TRACE_ND") != 0; if (nd_trace) fprintf(stderr, "ND %s %llu\n", k, (unsigned long long)v); return v; }
+uint64_t nondet_ulong(void) { return nxt("ulong"); }
+uint32_t nondet_uint(void) { return (uint32_t)nxt("uint"); }
+uint8_t nondet_uchar(void) { return (uint8_t)nxt("uchar"); }
+uint64_t vnd_ulong(void) { return nxt("ulong"); }
+uint32_t vnd_uint(void) { return (uint32_t)nxt("uint"); }
+uint8_t vnd_uchar(void) { return (uint8_t)nxt("uchar"); }
 static void finish(const char* what, long id, int code) { printf("%s %ld hash=%016llx\n", what, id, (unsigned long long)trace_hash); fflush(stdout); _exit(code); }
 void vassert_(int c, int id) { if (!c) finish("ASSERT-FAIL", id, 10); }
 void vassume_(int c) { if (!c) finish("ASSUME-FALSE", 0, 0); }
@@ -32,13 +34,15 @@ void vstl_length_error(void) { finish("THROW", 1, 12); }
 void vstl_access(const void* c) { (void)c; }
 #endif
 void harness(void);
+void ir_run_global_ctors(void) __attribute__((weak));   /* generated C only: static initialisers of the translated module */
+static void run_harness(void) { if (ir_run_global_ctors) ir_run_global_ctors(); harness(); }
 int main(int argc, char** argv) {
 	if (argc >= 3 && !strcmp(argv[1], "--replay")) {
 		FILE* f = fopen(argv[2], "r"); if (!f) { perror("replay"); return 2; }
 		size_t cap = 1024; stream = malloc(cap * sizeof *stream); unsigned long long v;
 		while (fscanf(f, "%llu", &v) == 1) { if (stream_n == cap) { cap *= 2; stream = realloc(stream, cap * sizeof *stream); } stream[stream_n++] = v; }
 		fclose(f);
-		harness();
+		run_harness();
 		finish("DONE", 0, 0);
 	}
 	if (argc >= 4 && !strcmp(argv[1], "--fuzz")) {
@@ -46,7 +50,7 @@ int main(int argc, char** argv) {
 		for (long i = 0; i < n; i++) {
 			fflush(stdout);
 			pid_t p = fork();
-			if (p == 0) { fuzz = 1; rng = (seed + 1) * 0x9E3779B97F4A7C15ULL + (uint64_t)i * 0xD1B54A32D192ED03ULL + 1; rnd(); rnd(); printf("%ld ", i); harness(); finish("DONE", 0, 0); }
+			if (p == 0) { fuzz = 1; rng = (seed + 1) * 0x9E3779B97F4A7C15ULL + (uint64_t)i * 0xD1B54A32D192ED03ULL + 1; rnd(); rnd(); printf("%ld ", i); run_harness(); finish("DONE", 0, 0); }
 			int st; waitpid(p, &st, 0);
 			if (!WIFEXITED(st)) { printf("%ld CRASH signal=%d\n", i, WIFSIGNALED(st) ? WTERMSIG(st) : -1); }
 		}
